@@ -288,6 +288,146 @@ def trailer_rule(chk, prog):
                       "sqfs2tar can report success without having flushed (finished) its output stream")
 
 
+def member_rule(chk, prog):
+    """K1-member: the decompressing input stream keeps going after a member ended: the only reasons to stop refilling
+    are an error, a full output buffer, or the wrapped stream's own end of input"""
+    unit = prog.by_src.get("lib/xfrm/src/istream.c")
+    if unit is None:
+        raise AnalysisBroken("lib/xfrm/src/istream.c not in the closure")
+    XEND = 1      # XFRM_STREAM_END
+    n = 0
+    for f in unit.functions.values():
+        if f.decl:
+            continue
+        f.build()
+        pcalls = [c for c in f.calls() if slot_call(c) == ("struct.xfrm_stream_t", "process_data")]
+        if not pcalls:
+            continue
+        n += 1
+        chk.analysed(f)
+        c = pcalls[0]
+        loop = f.loop_of(c.bb)
+        inst = "%s:refill-loop" % f.name
+        if loop is None:
+            chk.violation("K1-member", inst, c, "process_data is not called in a refill loop")
+            continue
+        header, body = loop
+        bad = None
+        for b in f.blocks:
+            if b in body or not f.dominates(header, b):
+                continue
+            # a block outside the loop that is only reached where the codec said "member finished"
+            for cond, outcome, br in f.guards_at(b):
+                if br.bb in body and cond.is_inst and cond.op == "icmp" and strip_casts(cond.ops[0]) is c and \
+                        cond.ops[1].is_const and cond.ops[1].is_int and cond.ops[1].sval == XEND and \
+                        outcome == (cond.pred == "eq"):
+                    bad = br
+        if bad is None:
+            chk.ok("K1-member", inst, c, "the refill loop never stops because a compressed member ended; it stops on error, full "
+                   "buffer, or the wrapped stream's end of input")
+        else:
+            chk.violation("K1-member", inst, bad, "the decompressing stream treats the end of one compressed member as the end of "
+                          "the input: concatenated members after it are silently dropped")
+    if n == 0:
+        chk.broke("no process_data call found in lib/xfrm/src/istream.c")
+
+
+def pending_invariant_rule(chk, prog):
+    """K1-pending: flush() finishes the codec stream only if input is pending; that is sound as long as append()
+    never returns with everything already pushed through the codec, i.e. after the non-finishing flush helper ran,
+    more input is buffered again before append returns"""
+    unit = prog.by_src.get("lib/xfrm/src/ostream.c")
+    fl = [f for f in prog.slot_impls(("struct.sqfs_ostream_t", "flush")) if f.unit is unit]
+    ap = [f for f in prog.slot_impls(("struct.sqfs_ostream_t", "append")) if f.unit is unit]
+    if len(fl) != 1 or len(ap) != 1:
+        chk.broke("xfrm ostream flush/append implementations not found")
+        return
+    f, a = fl[0].build(), ap[0].build()
+    conditional = False
+    for c in f.calls():
+        g = unit.functions.get(c.callee or "")
+        if g is not None and not g.decl and any(x.is_const and x.is_int and x.uval == 1 and x.bits == 1 for x in c.ops):
+            succ = success_points(f)
+            if not all(f.dominates(c.bb, b) for b in succ):
+                conditional = True
+    inst = "%s:pending-after-partial-flush" % a.name
+    if not conditional:
+        chk.ok("K1-pending", inst, f, "flush finishes the codec stream unconditionally", nontrivial=False)
+        return
+    chk.analysed(a)
+    helpers = [c for c in a.calls() if unit.functions.get(c.callee or "") is not None and
+               any(x.is_const and x.is_int and x.uval == 0 and x.bits == 1 for x in c.ops)]
+    adds = []
+    for i in a.insts():
+        if i.op == "store":
+            p_ = strip_casts(i.ops[1])
+            if p_.is_inst and p_.op == "getelementptr" and p_.field() and p_.field()[1] == "inbuf_used":
+                v = i.ops[0]
+                if v.is_inst and v.op == "add":
+                    adds.append(i)
+    bad = None
+    ab = {}
+    for s_ in adds:
+        ab.setdefault(s_.bb, []).append(s_.pos)
+    for h in helpers:
+        if any(p > h.pos for p in ab.get(h.bb, [])):
+            continue
+        seen, stack = set(), list(h.bb.succs)
+        while stack:
+            b = stack.pop()
+            if b in seen:
+                continue
+            seen.add(b)
+            if b in ab:
+                continue
+            if b.term.op == "ret":
+                v = b.term.ops[0]
+                # returning the helper's error is fine
+                okret = False
+                if v.is_inst and v.op == "phi":
+                    okret = False
+                bad = h
+            # an error return of the helper itself: edge where helper result != 0
+            nxt = list(b.succs)
+            stack.extend(nxt)
+    # refine: ignore paths that return the helper's non-zero result
+    if bad is not None:
+        bad2 = None
+        for h in helpers:
+            if any(p > h.pos for p in ab.get(h.bb, [])):
+                continue
+            ok_edges = [s_ for (s_, fact) in failure_edges(a, h)]
+            # success continuation of the helper
+            cont = []
+            for u in a.uses.get(h, []):
+                if u.op == "icmp":
+                    for br in a.uses.get(u, []):
+                        if br.op == "br" and len(br.x["succ"]) == 2:
+                            cont.append(br.x["succ"][1] if u.pred == "ne" else br.x["succ"][0])
+            for start in cont:
+                seen, stack = set(), [start]
+                while stack:
+                    b = stack.pop()
+                    if b in seen:
+                        continue
+                    seen.add(b)
+                    if b in ab:
+                        continue
+                    if b.term.op == "ret":
+                        bad2 = h
+                    stack.extend(b.succs)
+        bad = bad2
+    if bad is None and helpers:
+        chk.ok("K1-pending", inst, helpers[0], "after every partial flush more input is buffered before append returns, so the "
+               "'pending input' test in flush cannot skip the stream trailer")
+    elif not helpers:
+        chk.ok("K1-pending", inst, a, "append never pushes data through the codec itself", nontrivial=False)
+    else:
+        chk.violation("K1-pending", inst, bad, "append can return right after pushing a full buffer through the codec with nothing "
+                      "pending; flush then skips the finishing call and the compressed stream has no trailer (output sizes that "
+                      "are a multiple of the buffer size)")
+
+
 def _fields(v):
     from ..effects import fields_in_slice
     return fields_in_slice(v)
@@ -311,8 +451,12 @@ def run(chk):
     offsets_rule(chk, prog)
     tables_rule(chk, prog)
     trailer_rule(chk, load_program("sqfs2tar"))
+    member_rule(chk, prog)
+    pending_invariant_rule(chk, load_program("sqfs2tar"))
     chk.floor("K-codec", 4)
     chk.floor("K10-offsets", 6)
     chk.floor("K12-finish", 4)
     chk.floor("K2-codec-table", 4)
     chk.floor("K1-trailer", 3)
+    chk.floor("K1-member", 1)
+    chk.floor("K1-pending", 1)
